@@ -63,7 +63,8 @@ PROPS['C02'] = dict(
 PROPS['C03'] = dict(
     runs=[run('plain')], shards=16, watchdog=True, level='exploration',
     rule=('round trips through every encoder: Ethernet/IPv4|IPv6/UDP chains composed exactly as the send paths do (AppendPayload and SetPayload '
-          'variants, payload lengths 0..MTU, all UDP port classes), Ethernet/IP AppendPayload with raw protocols, ARP, ICMP echo, DHCPv4 with '
+          'variants, payload lengths 0..MTU, all UDP port classes; the frame completed by Ether.SetPayload, by Ether.AppendPayload in place (pads to 60 bytes) or by Ether.AppendPayload of a '
+          'payload built elsewhere with 0..3000 bytes of spare capacity; padded frames go through Session.Parse and the views must not show the padding), Ethernet/IP AppendPayload with raw protocols, ARP, ICMP echo, DHCPv4 with '
           'PRNG option maps (0..11 options of length 0..254, arbitrary requested-parameter orders incl. router-before-mask and repeats, reused '
           'dirty buffers of capacity 300..1500), DNS queries with 1..6 labels, NDP NS/NA marshal; each result decoded by refdec (ground truth = '
           'the generator inputs) and by the library views / Session.Parse; capacity stream: AppendPayload on IPv4/IPv6/UDP into canary-guarded '
@@ -229,8 +230,9 @@ _DHCP_RULE = ('histories of client messages to the real dhcp4_spoofer handler, e
               'another client\'s offered address, another client\'s leased address, own, router, network, broadcast, off-subnet), repeated DISCOVER, selecting REQUEST (our server id, requested = '
               'offered / other), selecting another server, renewing, rebooting, DECLINE, RELEASE, INFORM, with and without client-id option and parameter request list; Capture/Release toggles; '
               'time advances 5 s / 1 min / lease/2 / lease+ followed by MinuteTicker; a foreign server\'s OFFER on port 68; frames that make the session track an address. Three network '
-              'configurations (home /28 + netfilter /29, /24 + /25, /28 + /30: small pools so wrap-around and exhaustion happen), three modes, DNS configured or not. Bounded-exhaustive over a '
-              '14-operation alphabet on two clients to depth 3 (quick) / 5 (thorough) plus PRNG histories of length 30 on three clients. Oracle: wire-only monitor (requests built and replies '
+              'configurations (home /28 + netfilter /29, /24 + /25, /28 + /30: small pools so wrap-around and exhaustion happen) and one whose netfilter subnet shares the network address of the home LAN '
+              '(/24 + /25 low half), three modes, DNS configured or not; mid-history server restarts from the lease file (handler only, or session + handler: empty host table, capture flags gone). '
+              'Bounded-exhaustive over a 15-operation alphabet on two clients to depth 3 (quick) / 5 (thorough) plus PRNG histories of length 30 on three clients. Oracle: wire-only monitor (requests built and replies '
               'decoded by refdec) with a shadow table of acknowledged bindings. Non-trivial = a history with at least one ACK; distinct = (operation-kind multiset, network configuration)')
 for _p in ('C11', 'C12'):
     PROPS[_p] = dict(
@@ -276,7 +278,8 @@ PROPS['C13'] = dict(
     runs=[run('race', race=True)], shards=16, watchdog=True, level='exploration',
     rule=('histories of StartHunt/StopHunt/Close over three targets and two bystanders at PRNG-chosen virtual instants (delays 0, 1 ns, 100 ms, 1 s, one cycle -1 ns / exactly / +1 ns, 7 s, 13 s) '
           'interleaved with received ARP requests for the router and for other addresses, probes (with and without a different outstanding DHCP offer, probed address on and off the home LAN), '
-          'announcements and replies from hunted and non-hunted hosts; the real arp_spoofer handler with its real 6 s tickers runs in a synctest bubble under the race detector. Oracle: the call log '
+          'announcements and replies from hunted and non-hunted hosts, and requests for the router relayed by another station (Ethernet source and ARP sender hardware address differ, one hunted and '
+          'the other not); the real arp_spoofer handler with its real 6 s tickers runs in a synctest bubble under the race detector. Oracle: the call log '
           '(with frame-sequence watermarks) joined with the frames on the recorder, classified by refdec: forged frames only to MACs hunted at that point, one forged frame per cycle per hunted MAC, '
           'exactly one immediate reply to a hunted requester of the router and none otherwise, probe-reject iff different offer and on-LAN address, a packet restoring the router\'s real MAC within '
           'one cycle of StopHunt and nothing forged afterwards, a single loop per MAC, nothing after Close. Non-trivial = a history with forged frames and a corrective packet; distinct = '
@@ -298,7 +301,7 @@ PROPS['C14'] = dict(
           'real 2.0-2.8 s spoof timers runs in a synctest bubble under the race detector; every forged NA (TLLA = our MAC, target = a router) must carry override and hop limit 255, go only to a MAC '
           'hunted at that sequence point, only for routers learned by then, never after StopHunt/Close, at most one loop per MAC (>= 2 s between frames unless an RA woke the loop), and a hunted MAC '
           'must get a forged NA for every learned router within one period; StartHunt must reject IPv4 and ignore global targets. (learning) RAs built from generated option lists (prefix x0..3, '
-          'MTU, RDNSS 1..3, DNSSL 1..3 domains, route information /0../128, source LLA, unknown types, random order) through Parse -> ProcessPacket: FindRouter/LANRouters compared field by field '
+          'MTU, RDNSS 1..3, DNSSL 1..3 domains, route information /0../128, source LLA, unknown types, random order) through Parse -> ProcessPacket, all delivered in one receive buffer that is overwritten afterwards (as the read loop does): FindRouter/LANRouters compared field by field '
           'with refdec.DecodeRA. Non-trivial = a hunt history with forged NAs / a compared RA; distinct = forged-count bucket / option-set shape'),
     assumptions=['refdec NDP codec is the trusted oracle', 'each single-valued option appears at most once per RA', 'quiescent stepping of the bubble makes "in the hunt list at that point" exact'],
     min_obs={'quick': {'forged_nas': 1500, 'ra_compared': 3000, 'hunt_spans': 500}, 'thorough': {'forged_nas': 1500}},
@@ -313,7 +316,7 @@ PROPS['C19'] = dict(
     runs=[run('race', race=True)], shards=16, watchdog=True, level='exploration',
     rule=('scenarios in synctest bubbles under the race detector: 1..8 concurrent Ping / Ping6 calls to distinct destinations with time-outs 0.5 s .. 10 s and out-of-range values (0, negative, 11 s: '
           'documented default 2 s); the identifier of each is read from its own echo request on the recorder; generated arrivals are parsed at chosen virtual instants strictly before or after each '
-          'time-out: the matching echo reply (half-way, 1 ms before, 1 ms after the time-out, or never), replies with an unused identifier, echo requests carrying the same identifier, truncated '
+          'time-out: the matching echo reply (parsed inside the WriteTo of the request itself, i.e. before the sender is back from its write; half-way; 1 ms before; 1 ms after the time-out; or never), replies with an unused identifier, echo requests carrying the same identifier, truncated '
           'ICMP, duplicate replies; a send error is injected into some pings. Oracle: nil iff a matching reply was parsed before the time-out (and the call returns at that instant), ErrTimeout '
           'exactly at the time-out otherwise, the send error on a failed write, distinct identifiers, no waiter left (hook VerifICMPWaiters). Non-trivial = a scenario whose pings all returned; '
           'distinct = (number of pings, set of outcome/arrival kinds)'),
@@ -351,7 +354,7 @@ PROPS['C09'] = dict(
           'spoofers; a channel drainer; 8-14 API goroutines drawing from FindIP (+row-locked field reads), GetHosts, IPAddrs, FindByMAC, FindMACEntry, PrintTable, Capture, Release, IsCaptured, '
           'SetDHCPv4IPOffer, DHCPv4IPOffer, arp/icmp6 StartHunt/StopHunt, IsHunting, dhcp MinuteTicker, handler PrintTable, FindRouter; finally Close of handlers and session while traffic flows. '
           'Per run a different GOMAXPROCS (2/4/16) and a different perturbation vector over the 8 tag-guarded yield points (nothing / Gosched / sleep 50-500 us). Oracles: race-detector reports parsed '
-          'from GORACE logs (key = pair of innermost irai/packet frames), process-fatal errors and panics, a progress monitor (25 s without progress + goroutines parked on mutexes = deadlock), C05 '
+          'from GORACE logs (key = pair of innermost irai/packet frames), process-fatal errors and panics, a progress monitor that cannot be blocked by the operations it watches (no completed operation, or a barrier request not granted, for 25 s AND >= 2 goroutines blocked on locks inside library frames AND < 0.3 s of process CPU in a 3 s window = deadlock, keyed by the nested blocked frames; otherwise inconclusive), C05 '
           'invariants at barriers where all harness goroutines are parked, goroutines still running library code 1.5 s after Close, a deterministic Close/leak check in synctest bubbles, and a porcupine '
           'linearizability check of Capture/Release/IsCaptured and offer accessors on two never-purged MACs. Non-trivial = a completed run; distinct = (GOMAXPROCS, API goroutines, yield vector)'),
     assumptions=['the race detector only sees races that occurred on paths the stress reached', 'harness goroutines follow the documented contract (row lock to read Host/MACEntry fields obtained from FindIP, a single Parse goroutine)',
